@@ -77,7 +77,13 @@ def models(tier):
     ms = [Model("MC_Partition", "MC_Partition_uni5_3_2.cfg", "ParCons/ParFront design theorems, all datasets "
                 "(3 elements, <=2 rankings), every topological order, merge loop as a step machine; unifying p=1/2"),
           Model("MC_Partition", "MC_Partition_ind1_3_2.cfg", "same, induced measure p=1")]
+    walk = ("consistent_with as a state machine (loops transcribed): for every (ordered partition, bucket order) pair over "
+            "subsets of the elements the walk returns, and returns TRUE exactly for the relation of C07")
+    ms.append(Model("ConsistWalk", "MC_ConsistWalk_3.cfg" if tier == "quick" else "MC_ConsistWalk_4.cfg", walk))
     if tier == "thorough":
+        ms.append(Model("ConsistWalk", "MC_ConsistWalk_malformed.cfg", "named deviation: with a consensus announcing more "
+                        "elements than its first ranking holds the outer loop has no exit (the model reproduces the hang)",
+                        expect="violated"))
         ms += [Model("MC_Partition", f"MC_Partition_{s}_3_3.cfg", f"same, <=3 rankings, scheme {s}")
                for s in ("uni5", "uni1", "pse5", "ext", "odd")]
         ms += [Model("MC_Partition", "MC_Partition_uni5_4_2.cfg", "same, 4 elements <=2 rankings, unifying p=1/2",
